@@ -1,4 +1,4 @@
-import WK.Proofs.C14_Ref
+import WK.Proofs.C14_Reads
 /-
   C14 — the durable Raft log behaves as a correct Raft storage.
 
@@ -159,5 +159,55 @@ theorem c14_overwrite_suffix (ops : List Op) (hv : validRun {} ops = true)
 
 example : validEnts (runM {} [.save none none [⟨1, 1, .normal []⟩, ⟨2, 1, .normal []⟩]])
     [⟨2, 2, .normal [5]⟩] = true := by decide
+
+theorem validRun_snoc (m : RaftStore) (ops : List Op) (op : Op) :
+    validRun m (ops ++ [op]) = (validRun m ops && validOp (runM m ops) op) := by
+  induction ops generalizing m with
+  | nil => simp [validRun, runM]
+  | cons o os ih => simp only [List.cons_append, validRun, ih, runM, List.foldl_cons, Bool.and_assoc]
+
+/-- **cache_refines**: after any Raft-valid history the writer's cached
+    `scopeWriteState` — when there is one — is exactly what
+    `loadScopeWriteState` would rebuild from Pebble, so dropping it (Close/Open,
+    process kill after a completed write) changes no answer of the read API. -/
+theorem c14_cache_refines (ops : List Op) (hv : validRun {} ops = true) :
+    let p := runP {} ops
+    (∀ c, p.cache = some c → loadState p.d = .ok c) ∧
+    p.reopen.state = p.state ∧
+    p.reopen.reads.2 = p.reads.2 := by
+  intro p
+  obtain ⟨hr, h⟩ := run_refines {} {} refines_init rinv_init ops hv
+  have hr2 := reopen_refines _ _ hr
+  obtain ⟨mt, ak, hd, hm, hc⟩ := hr
+  have hload := loadState_canon _ h mt ak hm
+  refine ⟨?_, ?_, ?_⟩
+  · intro c hcc
+    rcases hc with hc | hc
+    · rw [hc] at hcc; cases hcc
+    · rw [hc] at hcc; cases hcc; rw [hd]; exact hload
+  · rw [state_canon p _ h mt ak hd hm hc]
+    exact state_canon p.reopen _ h mt ak hd hm (Or.inl rfl)
+  · rw [reads_eq _ _ hr2 h, reads_eq _ _ ⟨mt, ak, hd, hm, hc⟩ h]
+
+example : (runP {} [.save none none [⟨1, 1, .normal [7]⟩]]).cache.isSome = true := by decide
+
+/-- **pebble = reference**: after any Raft-valid history every answer of the read
+    API of the Pebble store (InitialState, FirstIndex, LastIndex, Snapshot,
+    Entries, Term over the probe window) equals the reference storage's. -/
+theorem c14_pebble_refines_reference (ops : List Op) (hv : validRun {} ops = true) :
+    (runP {} ops).reads.2 = (runM {} ops).reads := by
+  obtain ⟨hr, h⟩ := run_refines {} {} refines_init rinv_init ops hv
+  exact reads_eq _ _ hr h
+
+/-- a Raft-valid operation is never refused, by either store, in any reachable state -/
+theorem c14_valid_ops_succeed (ops : List Op) (op : Op) (hv : validRun {} (ops ++ [op]) = true) :
+    (∃ p', stepP? (runP {} ops) op = .ok p') ∧ (stepM? (runM {} ops) op).isSome = true := by
+  rw [validRun_snoc, Bool.and_eq_true] at hv
+  obtain ⟨hr, h⟩ := run_refines {} {} refines_init rinv_init ops hv.1
+  obtain ⟨⟨p', hp', _⟩, hm, _⟩ := step_refines _ _ hr h op hv.2
+  exact ⟨⟨p', hp'⟩, hm⟩
+
+example : validRun {} ([.save none none [⟨1, 1, .cc 0 1⟩], .save (some ⟨1, 0, 1⟩) none [], .mark 1] ++
+    [.repl ⟨1, 1, ⟨[1], []⟩, [3]⟩]) = true := by decide
 
 end WK.C14
